@@ -11,7 +11,7 @@
    that assumption the sorted order is unique (c17_sort_irrelevant), whatever sort.Slice does. *)
 From Coq Require Import List NArith ZArith Bool Permutation Sorted.
 From SW Require Import model.Chunks proof.ChunksProofs proof.ChunksOverlay proof.ChunksRead proof.ChunksManifest
-  proof.ChunksStream proof.ChunksCsr proof.ChunksWrap.
+  proof.ChunksStream proof.ChunksCsr proof.ChunksWrap model.ChunksSeq proof.ChunksSeq.
 Import ListNotations.
 Local Open Scope N_scope.
 
@@ -98,6 +98,78 @@ Theorem c17_read_at : forall src fuel ms chunks d m fs buf off,
     nth i (rr_buf r) 0 = if N.of_nat i <? rr_n r then overlay src d (off + N.of_nat i) else nth i buf 0.
 Proof. exact read_at_chunks. Qed.
 Print Assumptions c17_read_at.
+
+(* ---- ChunkReadAt is a STATE MACHINE across ReadAt calls (model/ChunksSeq.v): the one-entry last-chunk
+   cache (lastChunkFileId / lastChunkData), the chunk cache (GetChunkSlice / GetChunk / SetChunk, the
+   prefetch of the next view) and chunk fetches that FAIL per (call, chunk) (volume lookup error, HTTP
+   error, short body).  [ra_run] runs a sequence of calls (each: optional Close(), the file ids whose
+   fetch fails during the call, the caller's buffer, the offset) on ONE reader. ---- *)
+
+(* the cache invariant: before every call of every sequence, whatever failed before, lastChunkData is
+   the content of lastChunkFileId, or the reader has no last chunk and no data *)
+Theorem c17_last_chunk_invariant : forall src memo slices V fs ops s,
+  ra_inv src s -> Forall (ra_inv src) (ra_states src memo slices V fs ops s).
+Proof. exact ra_states_inv. Qed.
+Print Assumptions c17_last_chunk_invariant.
+
+(* one call from any state that satisfies the invariant, any chunk cache mode, any fetch oracle: the
+   invariant survives; without a fetch error the call IS the pure failure-free read_at (c17_read_at);
+   a fetch error means that the fetch of some view's chunk was made to fail during this call *)
+Theorem c17_read_call : forall src memo slices fails V fs buf off s, ra_inv src s ->
+  let r := fst (read_at_s src memo slices fails V fs buf off s) in
+  ra_inv src (snd (read_at_s src memo slices fails V fs buf off s)) /\
+  (rs_err r = false ->
+     rs_buf r = rr_buf (read_at src V fs buf off) /\ rs_n r = rr_n (read_at src V fs buf off) /\
+     rs_eof r = rr_eof (read_at src V fs buf off)) /\
+  (rs_err r = true -> exists w, In w V /\ fails (cv_fid w) = true).
+Proof. exact read_at_s_sim. Qed.
+Print Assumptions c17_read_call.
+
+(* FULL, over all call sequences and all failure scripts: EVERY call of the sequence
+   - leaves the buffer length alone, holds the overlay (zeros in holes) in its first n cells and
+     touches no other cell;
+   - without a fetch error: n = min(len, fileSize - offset), EOF iff the window reaches the file size
+     (in particular a retry after a failed call returns the right bytes, never those of the chunk
+     read before);
+   - with a fetch error (n and the buffer are what doReadAt had delivered before the failing fetch):
+     n <= min(len, fileSize - offset), no EOF, and the fetch of one of the file's chunks was made to
+     fail during THIS call (so a call without failing fetches returns no error) *)
+Theorem c17_read_seq : forall src memo slices fuel ms chunks d m fs,
+  resolve fuel ms 0 max_int64 chunks = Some (d, m) -> NoDup (map key d) ->
+  (forall c, In c d -> N.of_nat (length (src (c_fid c))) = c_size c) ->
+  (forall c, In c d -> c_stop c <= fs) -> fs <= max_int64 ->
+  forall ops s, ra_inv src s ->
+  Forall2 (fun o r =>
+     let buf := op_buf o in
+     let off := op_off o in
+     let len := N.of_nat (length buf) in
+     length (rs_buf r) = length buf /\
+     (forall i, (i < length buf)%nat ->
+        nth i (rs_buf r) 0 = if N.of_nat i <? rs_n r then overlay src d (off + N.of_nat i) else nth i buf 0) /\
+     (if rs_err r
+      then rs_n r <= N.min len (fs - off) /\ rs_eof r = false /\ exists c, In c d /\ In (c_fid c) (op_failing o)
+      else rs_n r = N.min len (fs - off) /\ rs_eof r = (fs <=? off + len)))
+    ops (ra_run src memo slices (view_from_chunks fuel ms chunks 0 max_int64) fs ops s).
+Proof. exact read_seq_chunks. Qed.
+Print Assumptions c17_read_seq.
+
+(* a fresh reader and a reader after Close() satisfy the invariant *)
+Theorem c17_reader_starts_clean : forall src s, ra_inv src ra_new /\ ra_inv src (ra_close s).
+Proof. exact (fun src s => conj (ra_inv_new src) (ra_inv_close src s)). Qed.
+Print Assumptions c17_reader_starts_clean.
+
+(* non-vacuity: chunk 1 = [0,2), chunk 2 = [5,7) of a 9-byte file, no chunk cache: read chunk 2; the
+   fetch of chunk 1 fails (n = 0, buffer untouched); the retry returns chunk 1's bytes; a read of the
+   whole file while chunk 2's fetch fails delivers 5 bytes and the error; the retry delivers all 9 *)
+Example c17_read_seq_example :
+  ra_run seq_example_src false false (view_from_chunks 1 [] seq_example_chunks 0 max_int64) 9 seq_example_ops ra_new =
+  [ {| rs_buf := [21;22]; rs_n := 2; rs_eof := false; rs_err := false |};
+    {| rs_buf := [238;238]; rs_n := 0; rs_eof := false; rs_err := true |};
+    {| rs_buf := [11;12]; rs_n := 2; rs_eof := false; rs_err := false |};
+    {| rs_buf := [11;12;0;0;0;238;238;238;238]; rs_n := 5; rs_eof := false; rs_err := true |};
+    {| rs_buf := [11;12;0;0;0;21;22;0;0]; rs_n := 9; rs_eof := true; rs_err := false |} ].
+Proof. exact seq_example. Qed.
+Print Assumptions c17_read_seq_example.
 
 (* ---- StreamContent (the filer's HTTP GET path; with the hole-padding repair), FULL: for every
    chunk list, offset and size the bytes written are exactly the overlay of the requested range
